@@ -20,7 +20,9 @@ RULE = (
     "innovations for the exactly representable thresholds) for the helper functions, and through identity sensors with "
     "S = I for the filters (boundary readings sqrt(T) and its two neighbours, oracle = IEEE product). One evaluation = "
     "one decision. distinct = (implementation, m, k, NIS case); non-trivial = the case lies within 1 ulp of the boundary "
-    "or flips the decision relative to its neighbour."
+    "or flips the decision relative to its neighbour. General filters (coupled 2-3 state models, non-zero state) x priors {dense, dense "
+    "with a 1-ulp asymmetry, output of a prediction} x every sensor x outliers {1e3, -1e6 in each reading; +-inf for 1-reading "
+    "sensors}: a discard returns state and covariance bit for bit."
 )
 ASSUMPTIONS = [
     "decision oracle: IEEE double comparison NIS > k*sqrt(2*m)+m evaluated in Python floats (same expression as the property)",
@@ -55,6 +57,11 @@ def cases(tier, seed):
     for dims in ([1, 3], [3, 1], [2, 4, 1]):
         for k in (2.0, 5.0):
             yield {"kind": "py-multi", "dims": dims, "k": k, "m": 0}
+    # "a discard changes nothing" on general filters: coupled models, non-zero states, priors that are symmetric only up to
+    # rounding (a supplied 1-ulp asymmetry, the output of a prediction), far-out and infinite readings
+    for shape, sens in (((2, 1, 1), (1, 2)), ((3, 1, 0), (2, 1, 3)), ((3, 2, 2), (3, 1))):
+        for k in (5.0, 0.5):
+            yield {"kind": "py-discard", "shape": list(shape), "sens": list(sens), "k": k, "m": 0, "seed": seed}
     from fv.props import c06_cpp
     yield from c06_cpp.cases(tier, seed)
 
@@ -147,9 +154,75 @@ def eval_multi(case):
             "sample": {"kind": "py-multi", "dims": dims, "k": k}}
 
 
+def eval_discard(case):
+    from fv.ekfref import RefEKF, cov_menu
+    from fv import refmodel as R
+    n_, k_, c_ = case["shape"]
+    d = space.bind_def(n_, k_, c_, order=3, sensors_shape=tuple(case["sens"]))
+    k = case["k"]
+    ekf = pyimpl.py_ekf(d, {"innovation_filtering": k})
+    ref = RefEKF(d)
+    ns = len(ref.st)
+    fails, sigs, n = [], [], 0
+
+    def fail(key, what):
+        if not any(f["key"] == f"{key}:py-discard" for f in fails):
+            fails.append({"key": f"{key}:py-discard", "what": f"{d['name']} k={k}: {what}"})
+
+    dense = np.array(cov_menu(ns, "quick")[2][1], dtype=float)
+    priors = [("dense", dense.copy())]
+    ulp = dense.copy()
+    ulp[0, ns - 1] = nextafter(ulp[0, ns - 1], inf)  # symmetric up to one unit in the last place: a valid covariance
+    priors.append(("dense+1ulp", ulp))
+    env = next(iter(space.some_points(ref.st + ref.ct, 1, case["seed"])))
+    state0 = ekf.State(**{s_: env[s_] for s_ in ref.st})
+    try:
+        pm = ekf.process_model(0.125, state0, ekf.Covariance.from_data(dense.copy()), ekf.Control(**{s_: env[s_] for s_ in ref.ct}))
+        priors.append(("predicted", np.array(pm.covariance.data, dtype=float)))
+    except Exception as e:
+        fail(f"raises:{type(e).__name__}", f"process_model raised {e!r}"[:200])
+    for pname, P in priors:
+        for key in sorted(ref.h):
+            names = ref.readings(key)
+            m = len(names)
+            T = threshold(k, m)
+            hx = [float(v) for v in ref.hx(key, ref.env(env))]
+            outl = [("1e3", 1e3), ("-1e6", -1e6)] + ([("+inf", inf), ("-inf", -inf)] if m == 1 else [])
+            for label, off in outl:
+                for pos in range(m):
+                    z = [h + (off if i == pos else 0.0) for i, h in enumerate(hx)]
+                    if off not in (inf, -inf):  # the documented criterion, evaluated by the reference, must say "discard" by a wide margin
+                        nis = float(ref.update(key, ref.env(env), R.M(P.tolist()), [R.mp.mpf(v) for v in z])[4])
+                        if not nis > 100 * T:
+                            continue
+                    state = ekf.State(**{s_: env[s_] for s_ in ref.st})
+                    cov = ekf.Covariance.from_data(P.copy())
+                    s0, p0 = state.data.copy(), cov.data.copy()
+                    try:
+                        out = ekf.sensor_model(state, cov, sensor_key=key, sensor_reading=ekf.make_reading(key, **dict(zip(names, z))))
+                    except Exception as e:
+                        fail(f"raises:{type(e).__name__}", f"prior {pname}, sensor {key}, reading {label}: {e!r}"[:300])
+                        continue
+                    n += 1
+                    sigs.append(f"pydisc:{case['shape']}:{k}:{pname}:{key}:{label}:{pos}")
+                    if out.state.data.tobytes() != s0.tobytes():
+                        fail("discard-changes-state", f"prior {pname}, sensor {key}, outlier {label} in reading {names[pos]}: state "
+                             f"{s0.ravel().tolist()} -> {out.state.data.ravel().tolist()}")
+                    if out.covariance.data.tobytes() != p0.tobytes():
+                        dd = np.abs(np.asarray(out.covariance.data) - p0)
+                        fail("discard-changes-covariance", f"prior {pname}, sensor {key}, outlier {label} in reading {names[pos]}: covariance "
+                             f"changed (max |difference| {float(np.nanmax(dd)) if dd.size else 0!r}; bitwise comparison)")
+                    if state.data.tobytes() != s0.tobytes() or cov.data.tobytes() != p0.tobytes():
+                        fail("inputs-modified", f"prior {pname}, sensor {key}, outlier {label}: sensor_model modified its inputs")
+    return {"n": n, "fails": fails, "sigs": sigs, "outcomes": ["discard", "py-discard-general"],
+            "sample": {"kind": "py-discard", "definition": d["name"], "k": k, "priors": [p_ for p_, _ in priors], "calls": n}}
+
+
 def eval_case(case):
     if case["kind"] == "py-multi":
         return eval_multi(case)
+    if case["kind"] == "py-discard":
+        return eval_discard(case)
     if case["kind"].startswith("cpp"):
         from fv.props import c06_cpp
         return c06_cpp.eval_case(case)
@@ -226,5 +299,5 @@ def eval_case(case):
             "sample": {"kind": case["kind"], "m": m, "k": k, "boundary_readings": [z for _, z in zs[:3]]}}
 
 
-REQUIRED_OUTCOMES = (["keep", "discard", "cpp-helper-ran", "cpp-filter-ran", "py-multi-sensor"] + [f"{o}:helper:m{m}:k{k}" for o in ("keep", "discard") for m in MS for k in KS]
+REQUIRED_OUTCOMES = (["keep", "discard", "cpp-helper-ran", "cpp-filter-ran", "py-multi-sensor", "py-discard-general"] + [f"{o}:helper:m{m}:k{k}" for o in ("keep", "discard") for m in MS for k in KS]
                      + [f"{o}:cppf:m{m}:k5.0" for o in ("keep", "discard") for m in MS] + [f"keep:cppf:m{m}:kNone" for m in MS] + [f"keep:cppf:m{m}:k0.0" for m in MS] + [f"discard:m{m}:k{k}" for m in MS for k in KS] + [f"keep:m{m}:k{k}" for m in MS for k in KS + [None]])
